@@ -36,7 +36,7 @@ META = {
                   'relocation (C03) enter the model as parameters that the theorems quantify over. Not reachable through Go-compiled targets and '
                   'therefore proved but not exercised: the too-small and already-patched exits of replaceFunc. Out of scope: internal-only '
                   'Guard.Restore/UnpatchAll, concurrency (C11). Use of a mocker handle after its own Cancel/Reset is not in the model; it is '
-                  'checked on the implementation only (oracle lane c02.stale, defect F14).',
+                  'checked on the implementation only (oracle lane c02.stale, defect F16).',
 }
 
 GEN = ['JmpAmd64']
